@@ -36,8 +36,10 @@ void *xv_trk;
  * An "attempt on address i" is everything done while track->ip_idx == i: tcp_opts_effectuate, [bind], connect.  A step that
  * fails (effectuate < 0, bind < 0, connect < 0 with errno != EINPROGRESS) is a FAILED attempt with that errno. */
 int xv_ai;
-/* The ghost variables below are FIELDS of a few structs (one struct = one assigns target: DFCC's write-set inclusion check is
- * quadratic in the number of targets; 70 separate globals made track_connect_next a 6-minute job). */
+/* The ghost variables below are FIELDS of sub-structs of ONE object xv_tc.  DFCC's write-set inclusion check is quadratic in
+ * the number of assigns targets (caller x callee, and callee = caller for the recursive track_connect_next): 70 separate
+ * globals made that job run 6 minutes; now the function under proof lists `xv_tc`, a callee contract the sub-structs it
+ * writes. */
 struct xv_arow_s {            /* row of the tracked address xv_ai */
     unsigned begun;           /* attempts begun on address xv_ai (= calls of tcp_opts_effectuate while ip_idx == xv_ai)           */
     unsigned failed;          /* failed steps while ip_idx == xv_ai                                                                */
@@ -45,7 +47,7 @@ struct xv_arow_s {            /* row of the tracked address xv_ai */
     unsigned conn;            /* connect() attempts (real address, not AF_UNSPEC) while ip_idx == xv_ai                             */
     int conn_rc, conn_errno, conn_fd;   /* the last of them: result, errno (0 on success), descriptor                              */
     const void *conn_src;     /* the struct xcm_addr_ip its address was built from (source of the last tp_ip_to_sockaddr)         */
-} xv_arow;
+};
 #define xv_att_begun xv_arow.begun
 #define xv_att_failed xv_arow.failed
 #define xv_att_errno xv_arow.err
@@ -57,7 +59,7 @@ struct xv_arow_s {            /* row of the tracked address xv_ai */
 struct xv_fail_s {            /* log over ALL attempts of the track */
     unsigned n;               /* failed steps so far                                                                               */
     int err;                  /* errno of the last failed step = "the errno of the last failed attempt"                            */
-} xv_fail;
+};
 #define xv_fail_n xv_fail.n
 #define xv_fail_errno xv_fail.err
 struct xv_conn_s {
@@ -68,7 +70,7 @@ struct xv_conn_s {
     unsigned unbound;         /* connect() attempts on a descriptor that was NOT bound to (local_ip, local_port) before             */
     unsigned wrong_addr;      /* connect() attempts whose address was not built from &remote_ips[ip_idx], remote_port              */
     unsigned unregistered;    /* connect() attempts made while the descriptor was not registered for EPOLLOUT (C04)                */
-} xv_conn;
+};
 #define xv_conn_n xv_conn.n
 #define xv_conn_idx xv_conn.idx
 #define xv_conn_fd xv_conn.fd
@@ -82,37 +84,54 @@ struct xv_conn_s {
 #define xv_unregistered xv_conn.unregistered
 /* order of the steps of one attempt: descriptor on which the options snapshot was applied / the local address was bound
  * since the attempt began (-1: none); reset by every event that ends an attempt */
-struct xv_pre_s { int eff_fd, bind_fd; } xv_pre;
+struct xv_pre_s { int eff_fd, bind_fd; };
 #define xv_pre_eff_fd xv_pre.eff_fd
 #define xv_pre_bind_fd xv_pre.bind_fd
 /* other modules, last call */
-struct xv_eff_s { unsigned n; int fd, rc; const void *opts; } xv_eff;                      /* tcp_opts_effectuate                */
+struct xv_eff_s { unsigned n; int fd, rc; const void *opts; };                      /* tcp_opts_effectuate                */
 #define xv_eff_n xv_eff.n
 #define xv_eff_fd xv_eff.fd
 #define xv_eff_rc xv_eff.rc
 #define xv_eff_opts xv_eff.opts
-struct xv_sa_s { const void *src; const void *dst; uint16_t port; int64_t scope; } xv_sa;  /* tp_ip_to_sockaddr                  */
+struct xv_sa_s { const void *src; const void *dst; uint16_t port; int64_t scope; };  /* tp_ip_to_sockaddr                  */
 #define xv_sa_src xv_sa.src
 #define xv_sa_dst xv_sa.dst
 #define xv_sa_port xv_sa.port
 #define xv_sa_scope xv_sa.scope
-struct xv_xp_s { int regs; int reg_fd, reg_event, reg_id; int del_id; } xv_xp;             /* xpoll_fd_reg_add / _del            */
+struct xv_xp_s { int regs; int reg_fd, reg_event, reg_id; int del_id; };             /* xpoll_fd_reg_add / _del            */
 #define xv_regs xv_xp.regs
 #define xv_reg_fd xv_xp.reg_fd
 #define xv_reg_event xv_xp.reg_event
 #define xv_reg_id xv_xp.reg_id
 #define xv_del_id xv_xp.del_id
-struct xv_tm_s { int timers; int64_t sched_id; double sched_timeout; const void *sched_mgr; _Bool expired_ret; unsigned expired_n; } xv_tm;   /* timer_mgr_* */
+struct xv_tm_s { int timers; int64_t sched_id; double sched_timeout; const void *sched_mgr; _Bool expired_ret; unsigned expired_n; };   /* timer_mgr_* */
 #define xv_timers xv_tm.timers
 #define xv_sched_id xv_tm.sched_id
 #define xv_sched_timeout xv_tm.sched_timeout
 #define xv_sched_mgr xv_tm.sched_mgr
 #define xv_expired_ret xv_tm.expired_ret
 #define xv_expired_n xv_tm.expired_n
-struct xv_est_s { unsigned n; int fd, rc, err; } xv_est;                                    /* ut_established                     */
+struct xv_est_s { unsigned n; int fd, rc, err; };                                    /* ut_established                     */
 #define xv_est_n xv_est.n
 #define xv_est_fd xv_est.fd
 #define xv_est_rc xv_est.rc
 #define xv_est_errno xv_est.err
+
+struct xv_tc_s {
+    struct xv_arow_s arow; struct xv_fail_s fail; struct xv_conn_s conn; struct xv_pre_s pre;
+    struct xv_eff_s eff; struct xv_sa_s sa; struct xv_xp_s xp; struct xv_tm_s tm; struct xv_est_s est;
+    /* last connect()/bind() of the kernel model (env/dnstc_env.h) */
+    struct xv_kc_s { unsigned connect_calls, connect_ok_calls; int connect_fd; unsigned bind_calls, bind_ok_calls; int bind_fd; } kc;
+} xv_tc;
+#define xv_arow xv_tc.arow
+#define xv_fail xv_tc.fail
+#define xv_conn xv_tc.conn
+#define xv_pre xv_tc.pre
+#define xv_eff xv_tc.eff
+#define xv_sa xv_tc.sa
+#define xv_xp xv_tc.xp
+#define xv_tm xv_tc.tm
+#define xv_est xv_tc.est
+#define xv_kc xv_tc.kc
 
 #endif
